@@ -600,7 +600,10 @@ class ModelDriver:
                 member[g].sort()
         o["member"] = member
         # ---- the raw GLPK problem
-        model.solver.update()
+        try:
+            model.solver.update()
+        except Exception as e:
+            inexact.append("lp:update-failed:%s" % type(e).__name__)
         prob = model.solver.problem
         ncols, nrows = glp_get_num_cols(prob), glp_get_num_rows(prob)
 
